@@ -224,6 +224,45 @@ def normalize_file(src, dst):
     return n
 
 
+def normalize_link_file(src, dst):
+    """link-level traces: nearly pass-through; the reset line carries kinds / stream from the scenario meta"""
+    n = 0
+    with open(src) as fi, open(dst, "w") as fo:
+        for line in fi:
+            line = line.strip()
+            if not line:
+                continue
+            r = json.loads(line)
+            k = r.get("k", "")
+            if k == "reset":
+                c = r.get("cfg") or {}
+                meta = r.get("meta") or {}
+                e = {"k": "reset", "id": s(r.get("id")),
+                     "cfg": {"discard": bool(c.get("discard")), "datagram": bool(c.get("datagram")),
+                             "is_master": bool(c.get("is_master")), "self_addr": bool(c.get("self_addr"))},
+                     "kinds": meta.get("kinds", []),
+                     "stream": [{"c": b["c"], "f": b["f"], "o": b["o"], "bad": bool(b["bad"])} for b in meta.get("stream", [])]}
+            elif k == "chunk":
+                e = {"k": "chunk", "n": r.get("n", 0), "delivered": r.get("delivered", []),
+                     "closed": bool(r.get("closed")), "replies": r.get("replies", []), "panic": "panic" in r}
+            elif k == "lframe":
+                h = r.get("h") or {}
+                e = {"k": "lframe", "h": {"dir": bool(h.get("dir")), "func": h.get("func", "OTHER"),
+                                          "fcv": bool(h.get("fcv")), "fcb": bool(h.get("fcb")),
+                                          "dst": h.get("dst", "OWN"), "src": h.get("src", "EP")},
+                     "deliver": r.get("deliver", "none"), "bc": r.get("bc", ""), "reply": r.get("reply", "none"),
+                     "ndeliver": r.get("ndeliver", 0), "nreply": r.get("nreply", 0), "closed": bool(r.get("closed")),
+                     "panic": "panic" in r}
+            elif k == "sweep":
+                e = {"k": "sweep", "variants": r.get("variants", 0), "bad_delivered": r.get("bad_delivered", 0),
+                     "what": r.get("what", "")}
+            else:
+                e = {"k": k}
+            fo.write(json.dumps(e, separators=(",", ":")) + "\n")
+            n += 1
+    return n
+
+
 if __name__ == "__main__":
     import sys
     print(normalize_file(sys.argv[1], sys.argv[2]))
